@@ -123,6 +123,46 @@ func PurityProbes() []Probe {
 		first, keysOf(errs1), second, keysOf(errs2), valStr(reflectValue(dflt), 0))}
 	p.Failed = Fingerprint(s) != fp0 || first != second || valStr(reflectValue(dflt), 0) != valStr(reflectValue(mk()), 0)
 	ps = append(ps, p)
+	// the same pointer more than once in a default: every occurrence is the schema's, none of them the caller's
+	{
+		pitem := z.Ptr(z.Struct(z.Schema{"name": z.String(), "tags": z.Slice(z.String())}))
+		mk2 := func() []*probeItem {
+			a, b := &probeItem{Name: "std", Tags: []string{"t"}}, &probeItem{Name: "other"}
+			return []*probeItem{a, b, a}
+		}
+		dflt2 := mk2()
+		s2 := z.Slice(pitem).Default(dflt2)
+		fp := Fingerprint(s2)
+		var first, second string
+		aliased := false
+		for round := 0; round < 2; round++ {
+			var d []*probeItem
+			s2.Validate(&d)
+			r := valStr(reflectValue(d), 0)
+			for _, x := range d {
+				for _, y := range dflt2 {
+					if x == y {
+						aliased = true
+					}
+				}
+				if x != nil {
+					x.Name += "!"
+					if len(x.Tags) > 0 {
+						x.Tags[0] = "scribbled"
+					}
+				}
+			}
+			if round == 0 {
+				first = r
+			} else {
+				second = r
+			}
+		}
+		p2 := Probe{Tag: "dest_aliases_schema", Detail: fmt.Sprintf("Slice(Ptr(Struct)).Default([]*Item{a, b, a}) (one pointer twice): first Validate of a nil slice gave %s, after the caller wrote through that result the next gave %s; a result element is one of the default's own pointers: %v; the caller's default is now %s",
+			first, second, aliased, valStr(reflectValue(dflt2), 0))}
+		p2.Failed = aliased || first != second || Fingerprint(s2) != fp || valStr(reflectValue(dflt2), 0) != valStr(reflectValue(mk2()), 0)
+		ps = append(ps, p2)
+	}
 	return ps
 }
 
